@@ -81,6 +81,9 @@ def gen_comb(rng):
             "cancel_at": rng.choice([0, 0.05]), "settle": 5.0}
     spec["sim"] = runner.draw_sim_cfg(rng, est=200)
     spec["sim"]["horizon_s"] = 20000
+    # (drawn last) inputs that are already cancelled when the combinator is built: the inputs after
+    # them are still inputs, and a True cancel() of the output still reaches them
+    spec["cancelled_first"] = [(not spec["done_first"][i]) and rng.random() < 0.2 for i in range(n)]
     return spec
 
 
@@ -152,6 +155,9 @@ def run_comb(spec, env):
         if spec["done_first"][i]:
             r.set_running_or_notify_cancel()
             r.set_result(1)
+        elif spec.get("cancelled_first", [False] * spec["n"])[i]:
+            if Future.cancel(r):
+                r.set_running_or_notify_cancel()
     c = spec["comb"]
     if c == "zip":
         out = F.f_zip(*ins)
@@ -381,7 +387,7 @@ def check_comb(spec, env):
         used = [0]
     if res is True:
         for i, (ncalls, cancelled, done) in enumerate(st):
-            if spec["done_first"][i] or i not in used:
+            if spec["done_first"][i] or i not in used or spec.get("cancelled_first", [False] * len(st))[i]:
                 continue
             if spec["shield"][i]:
                 if ncalls:
